@@ -254,4 +254,13 @@ example : DomClosed ExTak.basis TakD ∧ TakDom ExTak.basis TakD ExTak.mid ∧ T
     (goodPos_new ExTak.basis 3 false ExTak.start (by decide) ExTak.start_ok).2⟩,
    evInside_winner _, evInside_mat _, evInside_default _, by decide +kernel⟩
 
+/-- the hypotheses of `verdict_sound_tak` other than the no-collision hypothesis itself hold with `root` the 3×3 start
+position, the position `ExTak.mid` of that game and `EvaluateWinner` -/
+example : EvInside ExTak.basis evalWinner ∧ EvVerdictCongr evalWinner ∧ GoodPos ExTak.basis ExTak.start ∧
+    InGame ExTak.basis ExTak.start ExTak.start ∧ InGame ExTak.basis ExTak.start ExTak.mid :=
+  ⟨evInside_winner _, evVerdictCongr_winner, goodPos_new ExTak.basis 3 false ExTak.start (by decide) ExTak.start_ok,
+   .refl,
+   inGame_applyAll ExTak.basis (goodPos_new ExTak.basis 3 false ExTak.start (by decide) ExTak.start_ok) ExTak.moves
+     ExTak.start ExTak.mid .refl (by decide) ExTak.mid_ok⟩
+
 end C05
